@@ -190,11 +190,13 @@ func (c *connection) onProcess(onConnect OnConnect, onRequest OnRequest) (proces
 				return
 			}
 			// cannot use recover() here, since we don't want to break the panic stack
-			c.unlock(processing)
 			if c.IsActive() {
+				c.unlock(processing)
 				c.Close()
 			} else {
-				c.closeCallback(false, false)
+				// already closed: keep the processing lock while the callbacks run,
+				// otherwise a later Close could take it and run all of them again.
+				c.closeCallback(false, c.isCloseBy(user))
 			}
 		}()
 		// trigger onConnect first
